@@ -7,7 +7,7 @@ loader.install()
 from symrun import core  # noqa: E402
 from symrun.core import eng  # noqa: E402
 from symrun.values import fresh_str, SymBool, sym_and, sym_or, sym_not  # noqa: E402
-from harness.dsim import DExplore, make_jobs  # noqa: E402
+from harness.dsim import DExplore, make_jobs, make_random_jobs as make_drandom_jobs  # noqa: E402
 from env.dilation import LEADER, FOLLOWER  # noqa: E402
 from wormhole._dilation import manager as M  # noqa: E402
 import z3  # noqa: E402
@@ -18,6 +18,7 @@ CONFIGS = {
     "with-app": dict(app=True),
     "leader-not-dialable": dict(app=False, no_listen=(False, True)),
     "follower-not-dialable": dict(app=False, no_listen=(True, False)),
+    "ping-timeout": dict(app=False, silent_after_connect=True),
 }
 DOCUMENTED_LOG = set()
 
@@ -120,7 +121,7 @@ class Roles(Job):
 
 
 def jobs(tier):
-    return [Roles()] + make_jobs(Converge, tier, 2, 3)
+    return [Roles()] + make_jobs(Converge, tier, 2, 3) + make_drandom_jobs(Converge, tier)
 
 
 ASSUMPTIONS = [
